@@ -696,7 +696,10 @@ func (s *Session) parseArgs(arg string) (args map[string]string, ok bool) {
 }
 
 func (s *Session) reset() {
-	s.enterState(READY)
+	if s.state != GREET {
+		// A client that has not greeted yet stays in GREET (RSET is valid in any state).
+		s.enterState(READY)
+	}
 	s.from = nil
 	s.recipients = nil
 }
